@@ -64,30 +64,10 @@ def run_case(case, k):
             return did(f.queryDescriptionFor(name))
         raise ValueError(how)
 
-    gets = []
-    for op in case["ops"]:
-        if op[0] == "setbases":
-            ifaces[op[1]].__bases__ = tuple(ifaces[b] for b in op[2])
-        elif op[0] == "settag":
-            ifaces[op[1]].setTaggedValue(B.tagname(op[2]), op[3])
-        elif op[0] == "get":
-            if op[3] == 2:
-                # `in` only says whether there is a description; report the description through get
-                # afterwards (same memo entry) so that the answer is comparable
-                present = ("a%d" % op[2]) in ifaces[op[1]]
-                d = did(ifaces[op[1]].get("a%d" % op[2]))
-                if present != (d is not None):
-                    d = 2000
-                gets.append(d)
-            else:
-                gets.append(get_like(op[1], op[2], op[3]))
-        else:
-            raise ValueError(op)
-
     nameof = {"a%d" % k: k for k in range(0, 64)}
     tagof = {B.tagname(t): t for t in range(0, 64)}
-    snap = []
-    for x in case["nodes"]:
+
+    def observe(x):
         f = ifaces[x]
         o = {}
         g4 = []
@@ -133,8 +113,41 @@ def run_case(case, k):
         o["v2_ran"] = list(ran)
         o["v2_errs"] = [e.args[0] for e in errors]
         o["v2_raised"] = raised
-        snap.append(o)
-    return {"gets": gets, "snap": snap}
+        return o
+
+    gets = []
+    snaps = []
+    for op in case["ops"]:
+        if op[0] == "snap":
+            snaps.append(observe(op[1]))
+        elif op[0] == "dictmut":
+            d = ns["D%d" % op[1]]
+            if op[2] == "add":
+                d["a%d" % op[3]] = Attribute("a%d" % op[3], "dX")
+            elif op[2] == "del":
+                d.pop("a%d" % op[3], None)
+            else:
+                d.clear()
+        elif op[0] == "setbases":
+            ifaces[op[1]].__bases__ = tuple(ifaces[b] for b in op[2])
+        elif op[0] == "settag":
+            ifaces[op[1]].setTaggedValue(B.tagname(op[2]), op[3])
+        elif op[0] == "get":
+            if op[3] == 2:
+                # `in` only says whether there is a description; report the description through get
+                # afterwards (same memo entry) so that the answer is comparable
+                present = ("a%d" % op[2]) in ifaces[op[1]]
+                d = did(ifaces[op[1]].get("a%d" % op[2]))
+                if present != (d is not None):
+                    d = 2000
+                gets.append(d)
+            else:
+                gets.append(get_like(op[1], op[2], op[3]))
+        else:
+            raise ValueError(op)
+
+    snap = [observe(x) for x in case["nodes"]]
+    return {"gets": gets, "snaps": snaps, "snap": snap}
 
 
 def main():
